@@ -138,7 +138,9 @@ def main(run):
     for n, l in configs:
         run.prove(f"constructor[n={n},limit={l}]", RS.sc_regret_constructor, {"n": n, "limit": l}, pkg=pkg)
     # limits beyond the number of viable coalitions (3 at n=3) are part of 'every reveal limit >= 1'
-    iter_cfg = [(3, 1), (3, 2), (3, 3), (3, 4), (4, 1)] if quick else [(3, 1), (3, 2), (3, 3), (3, 4), (3, 7), (4, 1), (4, 2)]
+    # (4, 2) was tried in the thorough tier: one path of the iteration scenario takes ~16 s of symbolic execution there and
+    # the tree has hundreds - more than an hour even on 16 cores; it is covered by the bounded float32 histories instead
+    iter_cfg = [(3, 1), (3, 2), (3, 3), (3, 4), (4, 1)] if quick else [(3, 1), (3, 2), (3, 3), (3, 4), (3, 7), (4, 1)]
     for n, l in iter_cfg:
         for plus in (False, True):
             p = {"n": n, "limit": l, "plus": plus}
